@@ -1,6 +1,7 @@
 package rules
 
 import (
+	"go/constant"
 	"fmt"
 	"strings"
 	"go/token"
@@ -453,6 +454,145 @@ func runC14(c *Ctx) {
 		}}.Count()
 		c.Check(iv.Is(0, 0) && iv2.Is(1, 1), "O14.5", fk(rel)+":no-recycling-under-preload", rel.Pos(), fmt.Sprintf("Decoder.Release calls with preload: %v (want [0,0]); without: %v (want [1,1])", iv, iv2))
 	}
+	c14ReplayedNotRecycled(c, rel)
+}
+
+// c14ReplayedNotRecycled decides O14.10.
+func c14ReplayedNotRecycled(c *Ctx, rel *ssa.Function) {
+	c.Rule("O14.10", "an entry that will be delivered again is not recycled: a decoder that keeps decoded entries in a ring for the next pass (the jsonline decoder for a JSON array) delivers the same objects pass after pass, and its Release resets whatever matches its entry type and puts it back into the pool; so what the http provider hands to Decoder.Release must not be able to be a decoded entry (today: the GunAmmo that Acquire made, which no decoder's type test matches) - otherwise the second pass of the streaming arm delivers emptied entries while preload (which never releases) delivers them intact")
+	P := c.P
+	acq := P.Func("components/providers/http/provider", "Provider", "Acquire")
+	if acq == nil || rel == nil {
+		c.Anchor("O14.10", "Provider.Acquire / Provider.Release")
+		return
+	}
+	// the entry types a ring-keeping decoder recycles in Release
+	recycled := map[string]bool{}
+	var ringRelease []*ssa.Function
+	for _, nt := range decoderImpls(c, "O14.10") {
+		st, _ := nt.Underlying().(*types.Struct)
+		r := P.MethodFn(nt, "Release")
+		if r == nil || len(r.Blocks) == 0 {
+			continue
+		}
+		rec := false
+		EachInstr(r, func(in ssa.Instruction) {
+			ta, ok := in.(*ssa.TypeAssert)
+			if !ok || len(r.Params) < 2 || Strip(ta.X) != ssa.Value(r.Params[1]) {
+				return
+			}
+			used := false
+			EachInstr(r, func(i2 ssa.Instruction) {
+				cc := CC(i2)
+				if cc == nil {
+					return
+				}
+				isPut := MatchCC(cc, Spec{"sync", "Pool", "Put"})
+				isReset := cc.StaticCallee() != nil && cc.StaticCallee().Name() == "Reset"
+				if !isPut && !isReset {
+					return
+				}
+				for _, a := range cc.Args {
+					for _, root := range Roots(a, false) {
+						if ex, isEx := root.(*ssa.Extract); isEx && ex.Tuple == ssa.Value(ta) {
+							used = true
+						}
+					}
+					if DerivesAny(a, false, func(v ssa.Value) bool { return v == ssa.Value(ta) }) {
+						used = true
+					}
+				}
+			})
+			if used {
+				rec = true
+				if hasAmmosRing(st) {
+					recycled[types.TypeString(ta.AssertedType, nil)] = true
+				}
+			}
+		})
+		if rec && hasAmmosRing(st) {
+			ringRelease = append(ringRelease, r)
+		}
+	}
+	c.Floor("O14.10", "decoders that replay stored entries and recycle in Release", len(ringRelease), 1)
+	// the dynamic types of what Acquire hands out with ok possibly true (the engine releases exactly those: O3.1)
+	acquired := map[string]bool{}
+	unknown := ""
+	for _, b := range acq.Blocks {
+		r, isRet := b.Instrs[len(b.Instrs)-1].(*ssa.Return)
+		if !isRet || len(r.Results) < 2 {
+			continue
+		}
+		if k, isK := r.Results[1].(*ssa.Const); isK && !constant.BoolVal(k.Value) {
+			continue
+		}
+		var walk func(v ssa.Value)
+		seen := map[ssa.Value]bool{}
+		walk = func(v ssa.Value) {
+			if seen[v] {
+				return
+			}
+			seen[v] = true
+			switch x := v.(type) {
+			case *ssa.MakeInterface:
+				acquired[types.TypeString(x.X.Type(), nil)] = true
+			case *ssa.ChangeInterface:
+				walk(x.X)
+			case *ssa.Phi:
+				for _, e := range x.Edges {
+					walk(e)
+				}
+			case *ssa.Const:
+			default:
+				unknown = "Acquire returns a value whose dynamic type is not visible: " + v.String()
+			}
+		}
+		walk(r.Results[0])
+	}
+	n := 0
+	EachInstr(rel, func(in ssa.Instruction) {
+		if !IsCall(in, Spec{"./components/providers/http/decoders", "Decoder", "Release"}) {
+			return
+		}
+		n++
+		cc := CC(in)
+		arg := cc.Args[len(cc.Args)-1]
+		why := ""
+		var walk func(v ssa.Value)
+		seen := map[ssa.Value]bool{}
+		walk = func(v ssa.Value) {
+			if seen[v] || why != "" {
+				return
+			}
+			seen[v] = true
+			switch x := v.(type) {
+			case *ssa.Parameter:
+				if unknown != "" {
+					why = unknown
+				}
+				for t := range acquired {
+					if recycled[t] {
+						why = "Acquire hands out a " + t + ", which a replaying decoder's Release recycles"
+					}
+				}
+			case *ssa.MakeInterface:
+				if t := types.TypeString(x.X.Type(), nil); recycled[t] {
+					why = "a " + t + " is handed to Decoder.Release"
+				}
+			case *ssa.ChangeInterface:
+				walk(x.X)
+			case *ssa.Phi:
+				for _, e := range x.Edges {
+					walk(e)
+				}
+			default:
+				why = "the value handed to Decoder.Release is not the released ammo itself (" + v.String() + "): it may be the decoded entry"
+			}
+		}
+		walk(arg)
+		c.Check(why == "" || len(ringRelease) == 0, "O14.10", fk(rel)+":replayed-entries-are-not-recycled", in.Pos(), why)
+	})
+	c.Floor("O14.10", "Decoder.Release calls in Provider.Release", n, 1)
 }
 
 func gnames(m map[*ssa.Global]bool) []string {
